@@ -15,22 +15,22 @@ import (
 // ReplayFile is the self-contained record of a violation: replaying Choices against the same
 // tree reproduces the same signature and the same event-log hash.
 type ReplayFile struct {
-	Property  string   `json:"property"`
-	Tier      string   `json:"tier"`
-	Seed      uint64   `json:"seed"`
-	Signature string   `json:"signature"`
-	Oracle    string   `json:"oracle"`
-	Detail    string   `json:"detail"`
-	Choices   []int    `json:"choices"`
-	LogHash   string   `json:"log_hash"`
-	Steps     int64    `json:"steps"`
-	SimMs     int64    `json:"sim_ms"`
-	Original  int      `json:"original_choices"`
-	ShrinkRuns int     `json:"shrink_runs"`
-	Sample    string   `json:"sample"`
-	Trace     []string `json:"trace"`
-	Prelude   bool     `json:"prelude,omitempty"`
-	Shard     int      `json:"shard,omitempty"`
+	Property   string   `json:"property"`
+	Tier       string   `json:"tier"`
+	Seed       uint64   `json:"seed"`
+	Signature  string   `json:"signature"`
+	Oracle     string   `json:"oracle"`
+	Detail     string   `json:"detail"`
+	Choices    []int    `json:"choices"`
+	LogHash    string   `json:"log_hash"`
+	Steps      int64    `json:"steps"`
+	SimMs      int64    `json:"sim_ms"`
+	Original   int      `json:"original_choices"`
+	ShrinkRuns int      `json:"shrink_runs"`
+	Sample     string   `json:"sample"`
+	Trace      []string `json:"trace"`
+	Prelude    bool     `json:"prelude,omitempty"`
+	Shard      int      `json:"shard,omitempty"`
 }
 
 func firstSig(r *Result) string {
